@@ -1,7 +1,84 @@
 (* Property C08: loop and iterator restructuring preserves results.
-   Statements only; proofs in coq/Lang/Transforms/*Proofs.v. *)
+   Statements only; proofs in coq/Lang/Transforms/*Proofs.v.
+
+   PROVED (for every number instance N, every program, input, caller context):
+     C08_while_unroll_sound        unroll_while, every times >= 0, every loop selection (index / cursor / all),
+                                   bodies with early returns, nested loops, calls: full strength.
+     C08_gen_name_fresh / _inj     the fresh-name lemma for the model's supply of temporaries.
+   REFUTED on the faithful model (genuine defects of /repo, see known_findings.d/C08.json):
+     C08_zip_elim_sound_refuted, C08_enumerate_elim_sound_refuted,
+     C08_reduce_fusion_sound_refuted_{while,shortcircuit,target}.
+   MODELLED, NOT YET PROVED (structural correspondence + differential execution only):
+     see the end of this file. *)
 From Coq Require Import ZArith List Bool String.
 From FpyV Require Import Num.RealFloat Num.Float Num.CtxDef Lang.Syntax Lang.Values Lang.Sem
   Lang.Transforms.Common Lang.Transforms.WhileUnroll Lang.Transforms.ForUnroll Lang.Transforms.SplitLoop
-  Lang.Transforms.IterElim Lang.Transforms.ReduceFusion Lang.Transforms.NumInt.
+  Lang.Transforms.IterElim Lang.Transforms.ReduceFusion Lang.Transforms.NumInt
+  Lang.Transforms.CommonProofs Lang.Transforms.WhileUnrollProofs Lang.Transforms.RefutedProofs.
 Import ListNotations.
+Open Scope string_scope.
+Open Scope Z_scope.
+
+(* unroll_while preserves the result of every run that returns (the transformed
+   run returns the very same value, so `cval_eqb v v' = true` a fortiori) *)
+Theorem C08_while_unroll_sound :
+  forall (N : numops) (P : program) (w : sel) (times : nat) fuel f args c v,
+    run N P fuel f args c = ROk v ->
+    exists fuel', run N (prog_update P f (while_unroll w times)) fuel' f args c = ROk v.
+Proof. exact while_unroll_sound. Qed.
+Print Assumptions C08_while_unroll_sound.
+
+Theorem C08_while_unroll_sound_nonvacuous :
+  run c08_numops P_while 100 "f" [CList [nz 1; nz 2; nz 4]] None = ROk (CTuple [nz 3; nz 2]) /\
+  run c08_numops (prog_update P_while "f" (while_unroll SelAll 2)) 100 "f" [CList [nz 1; nz 2; nz 4]] None
+    = ROk (CTuple [nz 3; nz 2]).
+Proof. exact while_unroll_sound_nonvacuous. Qed.
+Print Assumptions C08_while_unroll_sound_nonvacuous.
+
+Theorem C08_gen_name_fresh : forall names i, ~ In (gen_name (max_len names) i) names.
+Proof. exact gen_name_fresh. Qed.
+Print Assumptions C08_gen_name_fresh.
+
+Theorem C08_gen_name_inj : forall L i j, gen_name L i = gen_name L j -> i = j.
+Proof. exact gen_name_inj. Qed.
+Print Assumptions C08_gen_name_inj.
+
+(* ---------------------------------------------------------------- refuted *)
+Theorem C08_zip_elim_sound_refuted :
+  exists P f args v v',
+    run c08_numops P 100 f args None = ROk v /\
+    run c08_numops (prog_update P f (elim_iter true true)) 100 f args None = ROk v' /\
+    cval_eqb v v' = false.
+Proof. exact zip_elim_sound_refuted. Qed.
+Print Assumptions C08_zip_elim_sound_refuted.
+
+Theorem C08_enumerate_elim_sound_refuted :
+  exists P f args v v',
+    run c08_numops P 100 f args None = ROk v /\
+    run c08_numops (prog_update P f (elim_iter true true)) 100 f args None = ROk v' /\
+    cval_eqb v v' = false.
+Proof. exact enumerate_elim_sound_refuted. Qed.
+Print Assumptions C08_enumerate_elim_sound_refuted.
+
+Theorem C08_reduce_fusion_sound_refuted_while :
+  exists P f args v v',
+    run c08_numops P 100 f args None = ROk v /\
+    run c08_numops (prog_update P f reduce_fusion) 100 f args None = ROk v' /\
+    cval_eqb v v' = false.
+Proof. exact reduce_fusion_sound_refuted_while. Qed.
+Print Assumptions C08_reduce_fusion_sound_refuted_while.
+
+Theorem C08_reduce_fusion_sound_refuted_shortcircuit :
+  exists P f args v,
+    run c08_numops P 100 f args None = ROk v /\
+    run c08_numops (prog_update P f reduce_fusion) 100 f args None = RErr IndexErr.
+Proof. exact reduce_fusion_sound_refuted_shortcircuit. Qed.
+Print Assumptions C08_reduce_fusion_sound_refuted_shortcircuit.
+
+Theorem C08_reduce_fusion_sound_refuted_target :
+  exists P f args v v',
+    run c08_numops P 100 f args None = ROk v /\
+    run c08_numops (prog_update P f reduce_fusion) 100 f args None = ROk v' /\
+    cval_eqb v v' = false.
+Proof. exact reduce_fusion_sound_refuted_target. Qed.
+Print Assumptions C08_reduce_fusion_sound_refuted_target.
